@@ -54,8 +54,9 @@ func (node *tagIncludeNode) Execute(ctx *ExecutionContext, writer TemplateWriter
 		includedTpl, err2 := set.FromFile(includedFilename)
 		if err2 != nil {
 			// if this is ReadFile error, and "if_exists" flag is enabled
-			// (only if it is this file that is missing, not one that it includes in turn)
-			if e := err2.(*Error); node.ifExists && e.Sender == "fromfile" && e.Filename == includedFilename {
+			// (only if it is this file that is missing, not one that it includes in turn, and
+			// not if it is there but cannot be read)
+			if e := err2.(*Error); node.ifExists && e.Sender == "fromfile" && e.Filename == includedFilename && e.OrigError == errTemplateNotFound {
 				return nil
 			}
 			return err2.(*Error)
@@ -115,8 +116,9 @@ func tagIncludeParser(doc *Parser, start *Token, arguments *Parser) (INodeTag, *
 		includedTpl, err := doc.template.set.FromFile(includedFilename)
 		if err != nil {
 			// if this is ReadFile error, and "if_exists" token presents we should create and empty node
-			// (only if it is this file that is missing, not one that it includes in turn)
-			if e := err.(*Error); e.Sender == "fromfile" && e.Filename == includedFilename && ifExists {
+			// (only if it is this file that is missing, not one that it includes in turn, and
+			// not if it is there but cannot be read)
+			if e := err.(*Error); e.Sender == "fromfile" && e.Filename == includedFilename && e.OrigError == errTemplateNotFound && ifExists {
 				return &tagIncludeEmptyNode{}, nil
 			}
 			return nil, err.(*Error).updateFromTokenIfNeeded(doc.template, filenameToken)
